@@ -434,9 +434,23 @@ def r07_4(ctx, rr):
             if sorts and wins:
                 w = wins[0]
                 cmp_ok = any(y.get("k") == "Binary" and y["op"] == "==" and y["l"].get("k") == "Field" and y["l"]["name"] == "sig" and y["r"].get("k") == "Field" and y["r"]["name"] == "sig" for y in walk(w["c"]))
-                ok = cmp_ok and any(is_chan_send(x) and "DuplicateSignature" in show(F, x) for x in walk(w["th"])) and diverges(F, w["th"]) and F.line(sorts[0]) <= F.line(w)
+                # the full sort is an unconditional statement of the same block, before the scan, and no
+                # other reordering of the shard (count_sort ..) sits between the two
+                blk = th if th.get("k") == "Block" else None
+                stmts = (blk["stmts"] + ([blk["expr"]] if "expr" in blk else [])) if blk else []
+                def top_index(node):
+                    for i_, st in enumerate(stmts):
+                        if st is node or any(x is node for x in walk(st)):
+                            return i_, st
+                    return None, None
+                si, sst = top_index(sorts[0])
+                wi, _wst = top_index(w)
+                uncond = sst is not None and not any(x.get("k") in ("If", "Match", "Loop") and any(y is sorts[0] for y in walk(x)) for x in walk(sst))
+                between = stmts[si + 1:wi] if si is not None and wi is not None else []
+                reorders = any(x.get("k") in ("MethodCall", "Call") and (x.get("name") or "").startswith(("count_sort", "sort", "shuffle", "swap", "reverse")) for st in between for x in walk(st))
+                ok = cmp_ok and any(is_chan_send(x) and "DuplicateSignature" in show(F, x) for x in walk(w["th"])) and diverges(F, w["th"]) and si is not None and wi is not None and si < wi and uncond and not reorders
     rr.instances += 1
-    rr.check(ok, "par_solve:dup-detection", "with check_dups the shard must be sorted and adjacent equal signatures reported as DuplicateSignature before solving", p.span)
+    rr.check(ok, "par_solve:dup-detection", "with check_dups the shard must be fully sorted by signature (unconditionally, immediately before the scan) and adjacent equal signatures reported as DuplicateSignature before solving", p.span)
 
 
 @rule("R08.3", props=["C08"], floor=2, title="filters: random prefill precedes solving on the EmptyVal path; silent dedup only for EmptyVal")
@@ -928,7 +942,7 @@ RESULT_SINKS_OK = {
 }
 
 
-@rule("R17.6", props=["C17", "C07", "C08"], floor=20, title="no Result produced in the builder, the signature store or the lenders is discarded (a dropped `?` turns a failed attempt into Ok)")
+@rule("R17.6", props=["C17", "C07", "C08", "C18"], floor=20, title="no Result produced in the builder, the signature store or the lenders is discarded (a dropped `?` turns a failed attempt into Ok)")
 def r17_6(ctx, rr):
     """Every expression statement (or `let _ =`) of type Result in src/func/vbuilder.rs, src/utils/sig_store.rs
     and src/utils/lenders.rs must be consumed: `?`, match, if let, a combinator whose value is used, or returned.
@@ -960,6 +974,15 @@ def r17_6(ctx, rr):
                 key = "%s:%s:result-discarded" % (short_fn(b.key), callee)
                 rr.ob(False, key=key)
                 rr.violate(key, "%s discards the Result of `%s`: an error there (a failed shard, a duplicate, an I/O error) is lost and the caller proceeds as if the step had succeeded" % (b.key, show(F, dropped)[:80]), F.loc(dropped))
+    # a Result replaced by a default is a discarded error too: `try_unwrap(shared).unwrap_or_default()` hands out an
+    # empty shard, `read(..).unwrap_or(0)` a short one
+    for b in bodies:
+        for n in walk(b.body):
+            if n.get("k") == "MethodCall" and n["name"] in ("unwrap_or_default", "unwrap_or", "unwrap_or_else", "ok", "map_or", "map_or_else") and F.ty(n["recv"]).startswith(("std::result::Result", "core::result::Result", "Result<")):
+                rr.instances += 1
+                key = "%s:%s:error-replaced-by-default" % (short_fn(b.key), n["name"])
+                rr.ob(False, key=key)
+                rr.violate(key, "%s turns the error of `%s` into a default value with `.%s(..)`: the failure (a shard that is still shared, a short read, a failed rewind) is silently replaced by an empty or partial result" % (b.key, show(F, n["recv"])[:80], n["name"]), F.loc(n))
     # every Result-typed call that IS consumed counts as an instance too (floor: the rule keeps seeing them)
     for b in bodies:
         for n in walk(b.body):
